@@ -27,6 +27,10 @@ CHECKS = {
             "Every output of every save in the workload is parsed by a reader that shares no code with the library and trusts only the header tables; declared sizes are compared with "
             "what the writer emitted between Block hook events and with what the reader consumes on reload; string-index fields are located through the StringRef hook. "
             "The workload writes files after plain round trips, second generation, API construction and random edit sequences in all versions.", "3/C07"),
+    "C16": ("fault_enumeration", "fault enumeration under ASan/UBSan/libstdc++ assertions: every/selected truncation offsets of real, synthesised and API-built files, fork-isolated with CPU-time hang detection",
+            "The fault model (file ends after k bytes) is enumerated over all offsets of the small samples and over block/field/table boundaries plus a stride of the large ones; each "
+            "prefix goes through Load, the query battery, copy, both saves, reload and destruction in a child process whose death (sanitizer abort, signal, assertion, CPU limit) is "
+            "attributed to the journalled fault and phase.", "3/C16"),
     "C18": ("exploration", "bounded-exhaustive differential testing against naive reference models under ASan/UBSan/libstdc++ assertions",
             "Every sorted index subset of vectors up to length 7 (10 thorough) for all index types used by callers, all small triangle lists x collapse maps, all strips over a "
             "4-symbol alphabet up to length 7 (8), plus random vectors at the 16-bit limits are pushed through the real templates and compared with naive models; out-of-container "
